@@ -84,7 +84,7 @@ ExpOp(x, calls, now) ==
 PredDone(g, id) == g.pred[id] = NoPred \/ (g.pred[id] \in Ids(g) /\ g.o[g.pred[id]].st = "done")
 
 (* monitors ---------------------------------------------------------------*)
-Monitors == {"C08_exec", "C08_once", "C08_state", "C08_target", "C08_id"}
+Monitors == {"C08_exec", "C08_once", "C08_state", "C08_target", "C08_id", "C08_sched_delay"}
 PropOf(m) == "C08"
 
 Ante(m, g, ev) ==
@@ -95,6 +95,9 @@ Ante(m, g, ev) ==
     [] m = "C08_state"  -> TRUE
     [] m = "C08_target" -> TRUE
     [] m = "C08_id"     -> o.op = "hash" \/ (o.op = "schedule" /\ ok)
+    \* an operation accepted with a delay below the minimum in force could later be executed in breach of the
+    \* property (possibly at a ledger no test can reach, e.g. a saturated ready ledger): judged when it is accepted
+    [] m = "C08_sched_delay" -> o.op = "schedule" /\ ok
 
 Cons(m, g, ev) ==
   LET o == ev.op  ok == ev.res = "ok"  now == ev.now  g2 == GNext(g, ev) IN
@@ -124,7 +127,9 @@ Cons(m, g, ev) ==
     [] m = "C08_id" -> IF o.op = "hash" THEN ok /\ (ev.obs.same <=> (o.chg = "none"))
                        ELSE ev.obs.retid
 
-Holds(m, g, ev) == Ante(m, g, ev) => Cons(m, g, ev)
+ConsExtra(m, g, ev) == ev.op.delay >= g.min
+
+Holds(m, g, ev) == Ante(m, g, ev) => (IF m = "C08_sched_delay" THEN ConsExtra(m, g, ev) ELSE Cons(m, g, ev))
 
 \* classification (only used to match known findings and to make reports readable)
 Key(m, g, ev) ==
